@@ -510,6 +510,16 @@ def shape_checks(O, inst, sol, entry, x, s, y, z, want):
     return True
 
 
+def rel_ok(gap, pcost, dcost, reltol, slack):
+    """documented relative-gap criterion, evaluated with `slack` = rounding uncertainty of the recomputed costs
+    (the criterion divides by a cost, which is ill-conditioned when the cost is at rounding level)."""
+    if pcost < slack and -pcost + slack > 0 and gap / (-pcost + slack) <= reltol:
+        return True
+    if dcost > -slack and dcost + slack > 0 and gap / (dcost + slack) <= reltol:
+        return True
+    return False
+
+
 def relgap_rule(gap, pcost, dcost):
     if pcost < 0.0:
         return gap / -pcost
@@ -557,7 +567,9 @@ def check_optimal(O, inst, sol, entry, cfg, external=False):
     gscale = q['ns'] * q['nz'] if N else 0.0
     at = opts['abstol'] * INFL + RECOMP_ABS * max(1.0, gscale)
     ok_abs = gap <= at
-    ok_rel = relgap is not None and relgap <= opts['reltol'] * INFL + 1e-9
+    cs_ = max(1.0, R.nrm2(inst['c']) * R.nrm2(x))
+    hs_ = max(1.0, q['resz0'] * q['nz'] + R.nrm2(inst['b']) * (R.nrm2(y) if y else 0.0))
+    ok_rel = rel_ok(gap, pcost, dcost, opts['reltol'] * INFL + 1e-9, 1e-12 * max(cs_, hs_))
     if external:
         ok_abs = gap <= max(at, 1e-5 * max(1.0, abs(pcost)))
     if judge and not (ok_abs or ok_rel):
